@@ -12,6 +12,7 @@ and a permuted run.  Which frame a row was computed from is read from the pixels
 from the pipeline's `frame_idx` / `video_idx`.
 """
 import json
+import math
 
 import numpy as np
 
@@ -45,6 +46,11 @@ THEOREMS = [
     "SleapVerif.C12.forward_mode_eval_append",
     "SleapVerif.C12.topdown_mode_per_frame",
     "SleapVerif.C12.forward_mode_asIs_counterexample",
+    "SleapVerif.C12.forward_mode_eval_head",
+    "SleapVerif.C12.gt_peaks_per_frame",
+    "SleapVerif.C12.gt_peaks_append",
+    "SleapVerif.C12.gt_peaks_perm",
+    "SleapVerif.C12.gt_pad_rows",
 ]
 TOL = 1e-6      # same input ⇒ same float32 arithmetic; coordinates/values compared at 1e-6
 VAL_TIE = 1e-6
@@ -284,6 +290,159 @@ def check_single(chk, case):
                  {"batch": brief(rows_b, False), "alone": brief(rows_1, False)})
 
 
+# ------------------------------------------------------------------ top-down with ground-truth peaks
+def impl_gt(case, vids):
+    """REAL TopDownPredictor(centroid model only) → CentroidCrop(return_crops=False) +
+    FindInstancePeaksGroundTruth, LabelsReader with `instances_key=True`."""
+    flat = [f for v in vids for f in v]
+    scene = stubs.Scene(flat, case["n_nodes"])
+    labels, _ = stubs.make_labels(vids, node_names=[f"n{i}" for i in range(case["n_nodes"])], order=case.get("order"))
+    p, cnet = stubs.build_topdown_gt(scene, labels.skeletons, sc=case["sc"], os_c=case["os_c"], ms_c=case["ms_c"],
+                                     max_hw=tuple(case["max_hw"]), batch_size=case["batch"], refinement=case["refine"],
+                                     max_instances=case.get("max_instances"), threshold=c02.THR)
+    out = stubs.run_predict(p, "LabelsReader", labels)
+    rows, sizes = [], []
+    for di, o in enumerate(out):
+        n = len(o["frame_idx"])
+        sizes.append(n)
+        for b in range(n):
+            insts = []
+            for inst in o["pred_instance_peaks"][b]:
+                insts.append(None if np.isnan(inst).all() else
+                             [None if np.isnan(q).any() else [float(q[0]), float(q[1])] for q in inst])
+            rows.append({"code": cnet.log[di][b]["code"], "fidx": int(o["frame_idx"][b]), "vidx": int(o["video_idx"][b]),
+                         "insts": insts, "cms": cnet.cms_log[di][b, 0]})
+    return rows, sizes
+
+
+def gt_same(a, b):
+    if (a["fidx"], a["vidx"]) != (b["fidx"], b["vidx"]):
+        return False
+    # compare the non-NaN rows in order (the amount of NaN padding legitimately depends on the labels' maximum)
+    xa, xb = [i for i in a["insts"] if i is not None], [i for i in b["insts"] if i is not None]
+    return len(xa) == len(xb) and all(pts_close(p, q) for p, q in zip(xa, xb))
+
+
+def which_animal(fr, inst):
+    """index of the labelled animal of frame `fr` whose points `inst` reproduces (1e-3 px), else None"""
+    for ai, an in enumerate(fr.animals):
+        if pts_close(inst, [None if p is None else list(p) for p in an.pts], 1e-3):
+            return ai
+    return None
+
+
+def check_gt(chk, case):
+    vids = frames_of(case)
+    order = [tuple(o) for o in case["order"]]
+    frames = [vids[v][k] for v, k in order]
+    B, mi = case["batch"], case.get("max_instances")
+    small = dict(case)
+    try:
+        rows_b, sizes_b = impl_gt(case, vids)
+        rows_1, _ = impl_gt({**case, "batch": 1}, vids)
+        rows_p, _ = impl_gt({**case, "order": [tuple(o) for o in case["perm"]]}, vids)
+    except stubs.StubAmbiguous:
+        chk.tag("stub_ambiguous_skipped")
+        return
+    except Exception as e:
+        chk.disagree("implementation raised where the model does not", small, f"raise:{type(e).__name__}: {str(e)[:200]}", "ok")
+        chk.fail(f"C12: top-down with ground-truth peaks raised {type(e).__name__} on a well-formed frame list: {str(e)[:200]}",
+                 small, None)
+        return
+    max_inst = max(len(f.animals) for v in vids for f in v)     # the reader pads to the labels' maximum
+    # model: per frame the matched animals in centroid order (row-major cells, top-k by value when limited)
+    per, tie = [], False
+    for fr, r in zip(frames, rows_b):
+        pk, _ = frame_peaks(fr, r, case)
+        if pk is None:
+            tie = True
+            break
+        if mi is not None and len(pk) > mi:
+            vals = sorted(v for _, _, _, v in pk)
+            if any(b - a < VAL_TIE for a, b in zip(vals, vals[1:])):
+                tie = True
+                break
+            pk = sorted(pk, key=lambda t: -t[3])[:mi]
+        per.append([ai for ai, _, _, _ in pk])
+    if tie or len(rows_b) != len(frames):
+        if tie:
+            chk.knife_edges += 1
+            return
+    (ml,) = (yield [f"gtparse {max_inst} {len(per)} " + " ".join(f"{len(m)} " + " ".join(map(str, m)) for m in per)])
+    toks = ml.split()[1:]
+    n_an = [len(f.animals) for f in frames]
+    chk.case(("gt", json.dumps(small, sort_keys=True)),
+             {"case": "gt_peaks", "B": B, "max_instances": mi, "animals_per_frame": n_an, "order": order, "model": ml[:200]},
+             tags=["gt_peaks", f"B={B}", f"mi={mi}",
+                   "fewer_than_max_before_another" if any(n < max_inst for n in n_an[:-1]) else "no_short_frame_first"])
+    why, ok = [], len(rows_b) == len(frames)
+    if ok:
+        for i, (fr, r) in enumerate(zip(frames, rows_b)):
+            want = toks[i * max_inst:(i + 1) * max_inst]
+            got = ["-" if inst is None else str(which_animal(fr, inst)) for inst in r["insts"]]
+            if got != want:
+                ok = False
+                chk.disagree("FindInstancePeaksGroundTruth rows == Decode.gtPeaks", {**small, "position": i}, got, want)
+                break
+    else:
+        chk.disagree("one output row block per frame", small, len(rows_b), len(frames))
+    bb, b1, bp = rows_by_code(rows_b), rows_by_code(rows_1), rows_by_code(rows_p)
+    for fr in frames:
+        a, b, c = bb.get(fr.code, []), b1.get(fr.code, []), bp.get(fr.code, [])
+        if len(a) != 1 or len(b) != 1 or len(c) != 1:
+            why.append(f"frame (video {fr.video}, idx {fr.frame_idx}) has {len(a)}/{len(b)}/{len(c)} row blocks")
+            continue
+        a, b, c = a[0], b[0], c[0]
+        if not gt_same(a, b):
+            why.append(f"frame (video {fr.video}, idx {fr.frame_idx}): instances in a batch of {B} differ from the frame alone")
+        if not gt_same(a, c):
+            why.append(f"frame (video {fr.video}, idx {fr.frame_idx}): instances change when the frame order is permuted")
+        if (a["fidx"], a["vidx"]) != (fr.frame_idx, fr.video):
+            why.append(f"rows computed from the image of (video {fr.video}, idx {fr.frame_idx}) carry (video {a['vidx']}, idx {a['fidx']})")
+        # every returned instance is one of THIS frame's labelled animals, none twice; all of them when unlimited
+        ids = [which_animal(fr, inst) for inst in a["insts"] if inst is not None]
+        if None in ids or len(set(ids)) != len(ids):
+            why.append(f"frame (video {fr.video}, idx {fr.frame_idx}) returns instances that are not its own labelled animals: {ids}")
+        elif mi is None and sorted(ids) != list(range(len(fr.animals))):
+            why.append(f"frame (video {fr.video}, idx {fr.frame_idx}) returns animals {sorted(ids)} of {len(fr.animals)} labelled")
+    if why:
+        chk.fail("C12 fails on top-down with ground-truth peaks: " + "; ".join(why[:3]), small,
+                 {"batch": [[r["code"], r["fidx"], ["-" if i is None else "inst" for i in r["insts"]]] for r in rows_b][:8]})
+
+
+def gen_gt(rng, i):
+    """mixed animal counts (1…4), no empty frame (the reader cannot stack zero instances), keypoints
+    close to the centroid (= node 0) so the nearest-instance match is the animal itself; eff = 1"""
+    for _ in range(60):
+        case = gen_topdown_case(rng, refine=("integral" if i % 3 == 2 else None), max_instances=[None, None, 2][i % 3],
+                                counts=(1, 1, 2, 3, 4))
+        case["videos"] = case["videos"][:1]
+        case["max_hw"] = [None, None]
+        v = case["videos"][0]
+        while len(v) < 3:
+            v.append(json.loads(json.dumps(v[rng.randrange(len(v))])))
+        if all(f["animals"] for f in v) and len({len(f["animals"]) for f in v}) > 1:
+            break
+    for f in v:
+        for a in f["animals"]:
+            cx, cy = a["centroid"]
+            pts = [[cx, cy]]
+            for _ in range(case["n_nodes"] - 1):
+                pts.append(None if rng.random() < 0.25 else
+                           [min(max(cx + rng.choice([-1, 1]) * (0.5 + rng.random()), 0.5), f["W"] - 1.5),
+                            min(max(cy + rng.choice([-1, 1]) * (0.5 + rng.random()), 0.5), f["H"] - 1.5)])
+            a["pts"] = [None if p is None else [round(p[0] * 16) / 16 + 1 / 64, round(p[1] * 16) / 16 + 1 / 64]
+                        for p in pts]
+            a["centroid"] = a["pts"][0]
+    case["pipeline"] = "gt"
+    add_order(rng, case, subset=False)
+    if i % 2 == 0:   # bias: a frame with FEWER animals than the maximum placed BEFORE another frame, one batch
+        order = sorted(case["order"], key=lambda o: len(v[o[1]]["animals"]))
+        case["order"], case["perm"], case["batch"] = order, order[::-1], len(order)
+        case["bias"] = "short_frame_first_in_batch"
+    return case
+
+
 # ------------------------------------------------------------------ network mode (BatchNorm / Dropout in the stub)
 SIG_MODE = "inference_model_does_not_force_eval"
 CUR = {"fresh": "train", "eval_set": "eval", "train_after_build": "train", "after_train_forward": "train"}
@@ -490,6 +649,8 @@ def bias_undershoot(rng, i):
 def case_gen(chk, case):
     if case.get("modes"):
         return check_modes(chk, case)
+    if case["pipeline"] == "gt":
+        return check_gt(chk, case)
     return check_single(chk, case) if case["pipeline"] == "single" else check_topdown(chk, case)
 
 
@@ -583,13 +744,16 @@ def bu_forward(sc, idxs, fidxs, vidxs, us=None, history=None, info=None):
             insts.append({"pts": [None if (np.isnan(q).all()) else [float(q[0]), float(q[1])] for q in pts],
                           "score": float(sc_)})
         recs.append({"frame": idxs[b], "fidx": int(out["frame_idx"][b]), "vidx": int(out["video_idx"][b]),
-                     "insts": insts, "peaks": np.asarray(out["peaks"][b], dtype=np.float64),
+                     "insts": insts, "line_scores": [float(x) for x in np.asarray(out["line_scores"][b]).reshape(-1)], "peaks": np.asarray(out["peaks"][b], dtype=np.float64),
                      "peak_vals": np.asarray(out["peak_vals"][b], dtype=np.float64)})
     return recs, out, flat["peaks"], sub
 
 
-def bu_same(a, b, tol=1e-5):
-    if len(a["insts"]) != len(b["insts"]):
+def bu_same(a, b, tol=1e-6):
+    """instances (coordinates), instance scores and the PAF line scores of a frame, within 1e-6"""
+    if len(a["insts"]) != len(b["insts"]) or len(a["line_scores"]) != len(b["line_scores"]):
+        return False
+    if any(abs(x - y) > tol and not (x != x and y != y) for x, y in zip(a["line_scores"], b["line_scores"])):
         return False
     for x, y in zip(a["insts"], b["insts"]):
         if abs(x["score"] - y["score"]) > tol or not pts_close(x["pts"], y["pts"], tol):
@@ -776,6 +940,86 @@ def bottomup_cases(chk, n, given=None):
                 chk.disagree("bottom-up max_instances filter == Decode.keepTop (order included)", small, lf[2], want)
 
 
+def gen_small_scene(rng):
+    """Bottom-up on SMALL maps with LARGE batches: PAF map 6×8 cells, 12–20 frames, one two-node animal
+    per frame whose edge is long relative to `max_edge_length_ratio` (the distance penalty applies), so
+    anything that lets the batch dimension into a per-frame quantity shows in the line/instance scores."""
+    from fractions import Fraction
+    cs, ps = 2, 4
+    Hin, Win = 6 * ps, 8 * ps
+    B = rng.randrange(12, 21)
+    frames = []
+    for _ in range(B):
+        for _try in range(100):
+            L = rng.uniform(9.0, 15.0)                 # max_edge_length = 0.25 · max(6, 8, 2) · 4 = 8 px
+            th = rng.uniform(-0.5, 0.5)
+            x0, y0 = rng.uniform(5.0, 9.0), rng.uniform(7.0, Hin - 7.0)
+            x1, y1 = x0 + L * math.cos(th), y0 + L * math.sin(th)
+            if 5.0 <= x1 <= Win - 6.0 and 5.0 <= y1 <= Hin - 6.0:
+                break
+        pts = []
+        for (x, y) in ((x0, y0), (x1, y1)):
+            fx, fy = Fraction(round(x * 4), 4), Fraction(round(y * 4), 4)
+            if (fx / cs) % 1 == Fraction(1, 2):
+                fx += Fraction(1, 4)
+            if (fy / cs) % 1 == Fraction(1, 2):
+                fy += Fraction(1, 4)
+            pts.append((fx, fy))
+        frames.append([pts])
+    D = 0.7072 * (ps + cs)
+    return {"cs": cs, "ps": ps, "n_nodes": 2, "edges": [(0, 1)], "Hin": Hin, "Win": Win, "sigma_c": 1.0,
+            "sigma_p": 1.4 * D * D, "frames": frames, "scale": 1.0, "effs": [rng.choice([1.0, 0.5, 1.25]) for _ in range(B)],
+            "refinement": rng.choice([None, "integral"]), "patch": 5, "n_points": 10, "ratio": 0.25,
+            "weight": 1.0, "min_line": 0.25, "min_peaks": 0, "threshold": 0.2}
+
+
+def bottomup_small_cases(chk, n, given=None):
+    import c03
+    rng = chk.rng
+    for ci in range(n):
+        sc = gen_small_scene(rng) if given is None else c03.unfrac_json(given[ci]["scene"])
+        nF = len(sc["frames"])
+        fidxs = rng.sample(range(100), nF) if given is None else given[ci]["fidxs"]
+        vidxs = [rng.randrange(3) for _ in range(nF)] if given is None else given[ci]["vidxs"]
+        small = {"scene": c03.frac_json(sc), "fidxs": fidxs, "vidxs": vidxs, "family": "small_map_large_batch"}
+        try:
+            full = bu_forward(sc, list(range(nF)), fidxs, vidxs)[0]
+            alone = [bu_forward(sc, [i], fidxs, vidxs)[0][0] for i in range(nF)]
+            half = bu_forward(sc, list(range(nF // 2)), fidxs, vidxs)[0]
+        except Exception as e:
+            chk.disagree("bottom-up forward raised where the model does not", small, f"raise:{type(e).__name__}: {str(e)[:200]}", "ok")
+            chk.fail(f"C12: BottomUpInferenceModel raised {type(e).__name__} on a well-formed batch: {str(e)[:200]}", small, None)
+            continue
+        pen = sum(1 for r in alone for x in r["line_scores"] if x == x and x < 0.97)
+        chk.case(("bottomup_small", json.dumps(small, sort_keys=True, default=str)),
+                 {"case": "bottomup_small", "frames": nF, "paf_map": [sc["Hin"] // sc["ps"], sc["Win"] // sc["ps"]],
+                  "line_scores_alone": [r["line_scores"] for r in alone][:4], "instances": [len(r["insts"]) for r in full][:6]},
+                 tags=["bottomup_small_map_large_batch", "penalty_active" if pen else "penalty_inactive"])
+        why = []
+        for b in range(nF):
+            if not bu_same(full[b], alone[b]):
+                why.append(f"frame {b}: instances / instance scores / line scores in a batch of {nF} differ from the frame alone "
+                           f"(line scores {full[b]['line_scores']} vs {alone[b]['line_scores']})")
+            if b < nF // 2 and not bu_same(full[b], half[b]):
+                why.append(f"frame {b}: results change between a batch of {nF} and a batch of {nF // 2}")
+            if (full[b]["fidx"], full[b]["vidx"]) != (fidxs[b], vidxs[b]):
+                why.append(f"sample {b} carries indices {(full[b]['fidx'], full[b]['vidx'])}")
+        if why:
+            chk.fail("C12 fails on bottom-up (small maps, large batch): " + "; ".join(why[:2]), small,
+                     {"line_scores_batch": [r["line_scores"] for r in full][:4]})
+
+
+def replay_fc12(chk):
+    """regression of F-C12 (fixed in dc60a97): a single-instance wrapper must run the network in eval mode"""
+    rng = __import__("random").Random(12)
+    case = gen_single(rng, 0)
+    case.update({"mode_layers": True, "history": "fresh"})
+    vids = frames_of(case)
+    impl_single(case, "LabelsReader", vids)
+    modes = c02.LAST.get("modes", [])
+    return any(modes), f"modes seen during SingleInstancePredictor inference (True = train): {sorted(set(modes))}"
+
+
 def main(chk: Check):
     chk.build_and_audit()
     import_repo()
@@ -783,6 +1027,9 @@ def main(chk: Check):
     np.random.seed(rng.randrange(2 ** 31))
     import torch
     torch.manual_seed(rng.randrange(2 ** 31))
+    if any(e["id"] == "F-C12" for e in chk.known):
+        still, detail = replay_fc12(chk)
+        chk.known_replay("F-C12", still_fails=still, detail=detail)
     cases = []
     for f in sorted((CORPUS / "C12").glob("*.json")) if (CORPUS / "C12").exists() else []:
         cases.append(json.loads(f.read_text()))
@@ -800,8 +1047,11 @@ def main(chk: Check):
             base["batch"] = 2
         base["modes"] = True
         cases.append(base)
+    for i in range(chk.n(14, 160)):
+        cases.append(gen_gt(rng, i))
     run_cases(chk, cases)
     bottomup_cases(chk, chk.n(10, 120))
+    bottomup_small_cases(chk, chk.n(4, 40))
     # model-only sanity of the chunking (cheap, exact): sizes of chunks B n
     lines = [f"chunks {b} {n}" for b in range(1, 6) for n in range(0, 12)]
     for line, out in zip(lines, run_driver("C12.lean", lines)):
@@ -816,7 +1066,9 @@ def replay(chk: Check, payload):
     import_repo()
     case = payload.get("case") or payload["disagreements"][0]["case"]
     print("replay case:", json.dumps(case)[:400])
-    if "scene" in case:
+    if case.get("family") == "small_map_large_batch":
+        bottomup_small_cases(chk, 1, given=[case])
+    elif "scene" in case:
         bottomup_cases(chk, 1, given=[case])
     else:
         run_cases(chk, [case])
